@@ -12,7 +12,7 @@ import terms, mcx
 from terms import mi, mn, mo, mtext, row, el
 
 PREFS0 = {"Language": "en", "SpeechStyle": "ClearSpeak", "BrailleCode": "Nemeth", "DecimalSeparator": "Auto", "Verbosity": "Medium", "TTS": "none"}
-PREF_OPS = [("Language", "en"), ("Language", "es"), ("Language", "sv"), ("SpeechStyle", "ClearSpeak"), ("SpeechStyle", "SimpleSpeak"),
+PREF_OPS = [("Language", "en"), ("Language", "es"), ("Language", "sv"), ("Language", "en-gb"), ("SpeechStyle", "ClearSpeak"), ("SpeechStyle", "SimpleSpeak"),
             ("BrailleCode", "Nemeth"), ("BrailleCode", "UEB"), ("BrailleCode", "Vietnam"), ("DecimalSeparator", "Auto"), ("DecimalSeparator", ","),
             ("Verbosity", "Terse"), ("Verbosity", "Verbose"), ("TTS", "none"), ("TTS", "SSML")]
 CANON_PREFS = ("Language", "DecimalSeparator")
@@ -30,7 +30,9 @@ def kitchen_sink():
 
 
 EXPRS = [
-    terms.doc(row(mi("a"), mo("⊕"), mi("b"), mo("≅"), mi("ℵ"), mo("+"), mi("ℋ"), mo("+"), mn("⅓"))),      # characters only in unicode-full.yaml (speech: en/es/sv; braille: Nemeth/UEB/Vietnam)
+    terms.doc(row(mi("a"), mo("⊕"), mi("b"), mo("≅"), mi("ℵ"), mo("+"), mi("ℋ"), mo("+"), mn("⅓"), mo("+"), row(mo("["), mi("x"), mo("+"), mn("1"), mo("]")), row(mo("{"), mi("y"), mo("}")),
+                  mo("+"), mn("3"), mtext("tim"), mo("+"), mn("2"), mtext("cup"))),      # + brackets en/en-gb name differently + unit abbreviations of one language only (definitions)
+    #      # characters only in unicode-full.yaml (speech: en/es/sv; braille: Nemeth/UEB/Vietnam)
     terms.doc(row(mn("12"), mo(","), mn("34"), mo("+"), mn("1"), mo("."), mn("234"), mo(","), mn("5"), mo("+"), mn("3.5"))),   # parsed differently per locale
     terms.doc(kitchen_sink()),                                                                          # one of every construct
     terms.doc(row(el("mfrac", mn("7"), mn("3"), intent="binomial($n,"), mo("+"), el("msup", mi("x"), mn("2")))),             # ill-formed intent
@@ -38,6 +40,8 @@ EXPRS = [
 GETTERS = [["speech"], ["braille", ""], ["overview"], ["nav", "ZoomIn"], ["nav", "MoveNext"], ["brpos"], ["nodeat", 1]]
 OPS = [["pref", k, v] for k, v in PREF_OPS] + [["mathml", e] for e in EXPRS] + GETTERS
 NOPS = len(OPS)
+NPREF = len(PREF_OPS)
+NEXPR = len(EXPRS)
 IS_OBS = [op[0] != "pref" for op in OPS]
 
 
@@ -639,25 +643,25 @@ def main(tier):
         # or windows of the de Bruijn sessions)
         hists = [h for h in hists if len(h) < 3 or OPS[h[0]][0] == "mathml"]
         # "load under A, switch, use under B":  set_mathml, getter, preference, getter
-        for e in range(14, 18):
+        for e in range(NPREF, NPREF + NEXPR):
             for g1 in obs_idx:
                 if OPS[g1][0] == "mathml":
                     continue
-                for p2 in range(14):
+                for p2 in range(NPREF):
                     for g2 in obs_idx:
                         if OPS[g2][0] != "mathml":
                             hists.append([e, g1, p2, g2])
         # plus two depth-4 shapes: preference, set_mathml, preference, observation (the textbook stale-cache history) and
         # preference, set_mathml, observation, observation (a getter that disturbs the next one)
-        for p1 in range(14):
+        for p1 in range(NPREF):
             if PREFS0[OPS[p1][1]] == OPS[p1][2]:
                 continue                    # writing the default value first changes nothing
-            for e in range(14, 18):
+            for e in range(NPREF, NPREF + NEXPR):
                 for x in range(NOPS):
                     if OPS[x][0] == "mathml":
                         continue
                     for g in obs_idx:
-                        if OPS[g][0] != "mathml":
+                        if OPS[g][0] != "mathml" and OPS[g] not in (["nav", "MoveNext"], ["nodeat", 1]):     # (these two stay in the middle position x)
                             hists.append([p1, e, x, g])
     # (b) de Bruijn sessions, cut into overlapping segments
     seq = de_bruijn(NOPS, order)
@@ -822,7 +826,7 @@ def main(tier):
     run.sample({"de_bruijn_segment_start": [opname(OPS[i]) for i in segs[3][:12]]})
     run.sample({"schedule": {"threads": [[opname_any(o) for o in s] for s in two[0]], "order": list(interleavings([len(s) for s in two[0]]))[17]}})
     return run.finish(
-        rule=f"alphabet of {NOPS} calls (14 preference writes colliding on every cache, 4 expressions, 7 observations); (a) every history of length <= {depth} "
+        rule=f"alphabet of {NOPS} calls ({NPREF} preference writes colliding on every cache, {NEXPR} expressions, 7 observations); (a) every history of length <= {depth} "
              "from the initial state that ends in an observation" + (", plus every 'preference, set_mathml, preference, observation' history" if tier == "quick" else "") +
              f", each in a fresh session; (b) a de Bruijn sequence of order {order} over the alphabet ({len(seq)} calls) run as {nseg} long sessions, so every window of "
              f"{order} calls occurs after a long earlier history; every observation compared with a switch-free fresh-session reference; "
